@@ -32,6 +32,7 @@ from .. import obs_models as om
 
 TEMPS = [1.0, 0.5, 2.0]           # index 0 = constructor default
 SAMPLERS = ['sample_alpha_sm', 'sample_alpha_gs', 'sample_alpha_none']
+OBSERVER_CALLS = ['summary', 'str', 'export', 'cost', 'get_cost']
 OPTIONS = {'pit': ['discrete_cost', 'train_features'],
            'mps': ['temperature', 'hard', 'gumbel', 'disable'],
            'sn': ['temperature', 'hard']}
@@ -48,6 +49,9 @@ def gen_history(rng, method, n_train=None):
         ops.append(('opt', name, val))
     for _ in range(rng.randint(0, 2)):
         ops.append(('mode', rng.randrange(2)))
+    for _ in range(rng.randint(0, 2)):
+        # observer calls are part of any real history (architecture logged at the end of an epoch, ...)
+        ops.append(('obs', rng.choice(OBSERVER_CALLS)))
     rng.shuffle(ops)
     return [('init', rng.randrange(1 << 16))] + ops
 
@@ -79,6 +83,8 @@ def apply_op(w, spec, op, shape):
                     p.grad = None
     elif op[0] == 'mode':
         w.train() if op[1] else w.eval()
+    elif op[0] == 'obs':
+        observer_call(w, spec, op[1])
     elif op[0] == 'opt':
         _, name, val = op
         if method == 'sn':
@@ -90,6 +96,21 @@ def apply_op(w, spec, op, shape):
             w.update_softmax_options(**{kw[0]: kw[1]})
         else:
             setattr(w, name, bool(val))
+
+
+def observer_call(w, spec, name):
+    if name == 'summary':
+        w.summary()
+    elif name == 'str':
+        str(w)
+    elif name == 'export':
+        w.export()
+    else:
+        for n in om.cost_names(spec):
+            if n is None:
+                w.cost
+            elif name == 'get_cost':
+                w.get_cost(n)
 
 
 def is_config(op):
@@ -121,6 +142,8 @@ def model_ops(spec, history, classes):
     for op in history:
         if op[0] in ('init', 'train'):
             out.append('t')
+        elif op[0] == 'obs':
+            out.append('o')
         elif op[0] == 'mode':
             out.append('m:%d' % op[1])
         else:
@@ -245,8 +268,9 @@ def obs_diff(a, b):
     return out
 
 
-def resume(spec, history, sd, proto, modes, transplant=None):
-    """fresh wrapper of the same seed network, protocol R or literal, strict load"""
+def resume(spec, history, sd, proto, modes, transplant=None, fresh_obs=()):
+    """fresh wrapper of the same seed network, protocol R or literal, observer calls the fresh wrapper
+    saw before loading (`fresh_obs`), strict load"""
     w, shape = om.build(spec)
     if proto == 'R':
         for op in history:
@@ -256,6 +280,8 @@ def resume(spec, history, sd, proto, modes, transplant=None):
         # the mode is the caller's choice at observation time, not state: same flags as the original
         for m, tr in zip(w.modules(), modes):
             m.training = tr
+    for name in fresh_obs:
+        observer_call(w, spec, name)
     status = 'ok'
     try:
         r = w.load_state_dict(sd, strict=True)
@@ -327,7 +353,8 @@ def run_case(item):
     method = om.METHOD[spec['kind']]
     res = {'violations': [], 'observations': [], 'real': {}, 'classes': []}
     w, shape = om.build(spec)
-    fresh_keys = sorted(w.state_dict().keys())
+    fresh_keys = sorted(w.state_dict().keys())          # the key set at construction
+    fresh_obs = list(item.get('fresh_obs') or [])
     res['classes'] = sorted({type(m).__name__ for m in w.modules()})
     frozen_before = None
     for op in history:
@@ -345,12 +372,20 @@ def run_case(item):
     res['real'].setdefault('train_touches_frozen', [])
     sd = {k: v.detach().clone() for k, v in w.state_dict().items()}
     trained_keys = sorted(sd.keys())
-    res['real']['keys_equal_fresh'] = trained_keys == fresh_keys
+    keydiff = sorted(set(trained_keys) ^ set(fresh_keys))
+    if fresh_obs:
+        wf, _ = om.build(spec)
+        for name in fresh_obs:
+            observer_call(wf, spec, name)
+        keydiff = sorted(set(keydiff) | (set(wf.state_dict().keys()) ^ set(fresh_keys)))
+        del wf
+    # key set after any history (observer calls included, on either side) = key set at construction
+    res['real']['keys_equal_fresh'] = not keydiff
     final_training = [m.training for m in w.modules()]
     seed = item['obs_seed']
     variants = {}
     for proto in ('R', 'L'):
-        v, _, status = resume(spec, history, sd, proto, final_training)
+        v, _, status = resume(spec, history, sd, proto, final_training, fresh_obs=fresh_obs)
         diff, _ = table_fields_diff(w, v)
         variants[proto] = {'w': v, 'status': status, 'diff': diff}
         if proto == 'L':
@@ -365,18 +400,20 @@ def run_case(item):
         V['state_eq'] = o['state'] == ov['state']
         res['real'][proto] = {'status': V['status'], 'diff': V['diff'], 'rec_eq': V['rec_eq'],
                               'state_eq': V['state_eq'], 'obs_eq': not V['obsdiff']}
-    case = {'kind': 'resume', 'spec': spec, 'history': [list(op) for op in history], 'obs_seed': seed}
+    case = {'kind': 'resume', 'spec': spec, 'history': [list(op) for op in history], 'obs_seed': seed,
+            'fresh_obs': fresh_obs}
     # ---- oracle, protocol R: the property as stated
     R = variants['R']
-    if R['status'] != 'ok':
-        comp = 'keys' if R['status'].startswith('keys') else 'load-error'
-        res['violations'].append({'key': 'C17:resume-differs:%s:%s' % (method, comp),
-                                  'what': 'strict load of a checkpoint into a fresh wrapper (protocol R): ' + R['status'],
+    if not res['real']['keys_equal_fresh'] or 'key(s)' in R['status'] or R['status'].startswith('keys'):
+        res['violations'].append({'key': 'C17:key-set-depends-on-history',
+                                  'what': 'the state_dict key set depends on the call history (observer calls %s on the '
+                                          'checkpointed wrapper, %s on the fresh one), not only on seed and constructor '
+                                          'arguments: %s; strict load: %s'
+                                          % ([o[1] for o in history if o[0] == 'obs'], fresh_obs, keydiff[:4], R['status'][:160]),
                                   'case': dict(case, proto='R')})
-    if not res['real']['keys_equal_fresh']:
-        res['violations'].append({'key': 'C17:resume-differs:%s:keys' % method,
-                                  'what': 'state_dict key set of the trained wrapper differs from a fresh one: %s'
-                                          % sorted(set(trained_keys) ^ set(fresh_keys))[:4],
+    elif R['status'] != 'ok':
+        res['violations'].append({'key': 'C17:resume-differs:%s:load-error' % method,
+                                  'what': 'strict load of a checkpoint into a fresh wrapper (protocol R): ' + R['status'],
                                   'case': dict(case, proto='R')})
     for comp, k, d in R['obsdiff']:
         res['violations'].append({'key': 'C17:resume-differs:%s:%s' % (method, comp),
@@ -388,7 +425,9 @@ def run_case(item):
                                   'case': dict(case, proto='R')})
     # ---- literal reading: attribute what makes the difference
     L = variants['L']
-    if L['status'] != 'ok':
+    if L['status'] != 'ok' and not res['real']['keys_equal_fresh']:
+        pass        # reported above
+    elif L['status'] != 'ok':
         res['violations'].append({'key': 'C17:resume-differs:%s:keys-literal' % method,
                                   'what': 'strict load (literal reading): ' + L['status'], 'case': dict(case, proto='L')})
     elif L['obsdiff']:
@@ -401,7 +440,7 @@ def run_case(item):
             tp = {}
             for g in keep:
                 tp.update(groups[g])
-            v, _, _ = resume(spec, history, sd, 'L', final_training, transplant=tp)
+            v, _, _ = resume(spec, history, sd, 'L', final_training, transplant=tp, fresh_obs=fresh_obs)
             return obs_diff(o_ref, observe(v, spec, shape, seed))
         # the original was consumed by `observe`: rebuild the reference through protocol R when that
         # one agreed, else through a full transplant
@@ -570,8 +609,11 @@ def _run(chk):
     n_hist = 4 if chk.quick else 120
     items = []
 
-    def add(spec, hist):
-        items.append({'spec': spec, 'history': [list(o) for o in hist], 'obs_seed': rng.randrange(1 << 16)})
+    def add(spec, hist, fresh_obs=None):
+        if fresh_obs is None:
+            fresh_obs = [rng.choice(OBSERVER_CALLS) for _ in range(rng.choice([0, 0, 1, 2]))]
+        items.append({'spec': spec, 'history': [list(o) for o in hist], 'obs_seed': rng.randrange(1 << 16),
+                      'fresh_obs': fresh_obs})
     for kind in om.KINDS:
         method = om.METHOD[kind]
         # fixed histories: every option the quantifier names is changed once, between optimizer steps
@@ -592,6 +634,11 @@ def _run(chk):
             spec = om.random_spec(rng, kind)
             add(spec, [('init', 1), ('train', 2), ('opt', 'hard', not spec['hard']), ('train', 4)])
         add(om.random_spec(rng, kind), gen_history(rng, method, n_train=0))     # checkpoint of an untrained wrapper
+        # observer calls on exactly one side: the architecture is logged / exported before checkpointing and the
+        # fresh wrapper is loaded untouched; and the reverse
+        add(om.random_spec(rng, kind), [('init', 1), ('train', 2), ('obs', 'summary'), ('train', 3), ('obs', 'export'),
+                                        ('obs', 'str'), ('obs', 'get_cost')], fresh_obs=[])
+        add(om.random_spec(rng, kind), [('init', 1), ('train', 2), ('train', 3)], fresh_obs=['summary', 'export', 'cost'])
         for j in range(n_hist):
             add(om.random_spec(rng, kind), gen_history(rng, method))
     tv_items = [{'spec': om.random_spec(rng, kind)} for kind in om.KINDS for _ in range(1 if chk.quick else 4)]
@@ -602,7 +649,7 @@ def _run(chk):
     for it, r in zip(items, results):
         mo = model_ops(it['spec'], [tuple(o) for o in it['history']], r['classes'])
         for proto in ('R', 'L'):
-            lines.append('resume proto=%s ops=[%s]' % (proto, ','.join(mo)))
+            lines.append('resume proto=%s ops=[%s] pre=[%s]' % (proto, ','.join(mo), ','.join('o' for _ in it['fresh_obs'])))
             meta.append(('resume', it, r, proto))
     tab = fieldtable.by_class(rows)
     kind_q = {}
@@ -644,20 +691,21 @@ def _run(chk):
                 b = lambda x: 'eq' if x else 'ne'
                 rs = 'keys=%s diff=[%s] rec=%s pers=%s obs=%s' % (keys, ','.join(real['diff']), b(real['rec_eq']),
                                                                   b(real['state_eq']), b(real['obs_eq']))
-                chk.corr({'spec': it['spec'], 'history': it['history'], 'proto': 'R'}, rs, ans,
+                chk.corr({'spec': it['spec'], 'history': it['history'], 'fresh_obs': it['fresh_obs'], 'proto': 'R'}, rs, ans,
                          'fields differing after load / equality after one forward, protocol R')
             else:
                 # after the forward the literal resume may or may not differ (mode, hardening); the
                 # model's claim is one-sided: a real difference must be predicted
                 pre = ans.split(' rec=')[0]
                 rs = 'keys=%s diff=[%s]' % (keys, ','.join(real['diff']))
-                chk.corr({'spec': it['spec'], 'history': it['history'], 'proto': 'L'}, rs, pre,
+                chk.corr({'spec': it['spec'], 'history': it['history'], 'fresh_obs': it['fresh_obs'], 'proto': 'L'}, rs, pre,
                          'fields differing after load, literal reading')
                 if not real['obs_eq'] and ans.endswith('obs=eq'):
                     chk.corr({'spec': it['spec'], 'history': it['history'], 'proto': 'L', 'check': 'obs'},
                              'obs=ne', 'obs=eq', 'literal resume differs where the model predicts equality')
             nontriv = any(o[0] in ('train', 'opt') for o in it['history'])
-            chk.count((json.dumps(it['spec'], sort_keys=True), json.dumps(it['history']), proto), nontrivial=nontriv,
+            chk.count((json.dumps(it['spec'], sort_keys=True), json.dumps(it['history']), json.dumps(it['fresh_obs']), proto),
+                      nontrivial=nontriv,
                       sample={'spec': it['spec'], 'history': it['history'], 'proto': proto, 'impl': real},
                       bucket='%s:%s' % (it['spec']['kind'], proto))
     for it, r in zip(items, results):
@@ -670,8 +718,10 @@ def _run(chk):
         n_tr = sum(1 for o in it['history'] if o[0] == 'train')
         chk.hist['train_steps=%d' % n_tr] = chk.hist.get('train_steps=%d' % n_tr, 0) + 1
         for o in it['history']:
-            if o[0] == 'opt':
-                chk.hist['opt:' + o[1]] = chk.hist.get('opt:' + o[1], 0) + 1
+            if o[0] in ('opt', 'obs'):
+                chk.hist[o[0] + ':' + o[1]] = chk.hist.get(o[0] + ':' + o[1], 0) + 1
+        for o in it['fresh_obs']:
+            chk.hist['fresh-side-obs:' + o] = chk.hist.get('fresh-side-obs:' + o, 0) + 1
     for tv in tvs:
         for cn, k, ok in tv['recomputed']:
             chk.corr({'class': cn, 'attribute': k, 'check': 'poisoned before forward'},
@@ -694,7 +744,8 @@ def _run(chk):
             for j in range(12 if chk.quick else 40):
                 spec = om.random_spec(rng, kind)
                 hist = gen_history(rng, om.METHOD[kind], n_train=rng.randint(1, 5))
-                extra_items.append({'spec': spec, 'history': [list(o) for o in hist], 'obs_seed': rng.randrange(1 << 16)})
+                extra_items.append({'spec': spec, 'history': [list(o) for o in hist], 'obs_seed': rng.randrange(1 << 16),
+                                    'fresh_obs': [rng.choice(OBSERVER_CALLS) for _ in range(rng.choice([0, 1, 2]))]})
         for it, r in zip(extra_items, common.pmap(run_case, extra_items)):
             for v in r['violations']:
                 chk.violation(v['key'], v['what'], v['case'])
@@ -704,7 +755,8 @@ def _run(chk):
 def replay(data):
     common.use_repo_on_path()
     case = data['case']
-    r = run_case({'spec': case['spec'], 'history': case['history'], 'obs_seed': case['obs_seed']})
+    r = run_case({'spec': case['spec'], 'history': case['history'], 'obs_seed': case['obs_seed'],
+                  'fresh_obs': case.get('fresh_obs') or []})
     print(json.dumps(r['real'], indent=1, default=str))
     keys = [v['key'] for v in r['violations']]
     for v in r['violations']:
